@@ -139,7 +139,7 @@ def gen_meta(rng, enc):
 
 
 def run(ctx):
-    monitors.install(ctx)
+    monitors.install(ctx, tokalg=False)
     from chameleon import PageTemplate, PageTemplateFile
     rng = ctx.rng
     n = 300 if ctx.quick else 4000
